@@ -70,6 +70,79 @@ def calls_any(cg, f, names, depth=3, _seen=None):
     return False
 
 
+def store_without_invalidation(cg, f, attr):
+    """the guard under which the invalidation of `f` sits while a store to `attr` can run outside it: None when every
+    completing path that stores the attribute also invalidates (paths enumerated over the if / try structure)"""
+    INV = ("Need_Update", "_Notify")
+
+    def invalidates(st):
+        for n in ast.walk(st):
+            if isinstance(n, ast.Call):
+                if (dotted(n.func) or "").split(".")[-1] in INV:
+                    return True
+                if isinstance(n.func, ast.Attribute) and isinstance(n.func.value, ast.Name) and n.func.value.id == "self" and f.cls is not None:
+                    if any(calls_any(cg, g, INV) for g in cg.resolve_self_attr(f.cls, n.func.attr, include_overrides=False)):
+                        return True
+                acc = resolve_accessor_call(cg.repo, f, n)
+                if acc is not None and calls_any(cg, acc, INV):
+                    return True
+            if isinstance(n, ast.Assign) and f.cls is not None:
+                for t in n.targets:
+                    if isinstance(t, ast.Attribute) and isinstance(t.value, ast.Name) and t.value.id == "self":
+                        sset = cg.repo.lookup_setter(f.cls, t.attr)
+                        if sset is not None and calls_any(cg, sset, INV):
+                            return True
+        return False
+
+    def stores(st):
+        for n in ast.walk(st):
+            if isinstance(n, ast.Attribute) and isinstance(n.value, ast.Name) and n.value.id == "self" and isinstance(n.ctx, ast.Store) and f.cls is not None and f.cls.mangle(n.attr) == attr:
+                return True
+        return False
+
+    # paths: list of (stored, invalidated, last_guard) states; compound statements split them
+    def walk(block, states):
+        for st in block:
+            if not states or len(states) > 512:
+                return states
+            if isinstance(st, ast.If):
+                a = walk(st.body, [(s, i, g) for s, i, g in states])
+                b = walk(st.orelse, [(s, i, st if not i else g) for s, i, g in states])
+                states = a + b
+            elif isinstance(st, (ast.For, ast.While, ast.With)):
+                states = walk(st.body, states) + ([] if isinstance(st, ast.With) else states)
+            elif isinstance(st, ast.Try):
+                states = walk(st.body + st.orelse + st.finalbody, states)
+            elif isinstance(st, (ast.Raise,)) or (isinstance(st, ast.Assert) and False):
+                states = []
+            elif isinstance(st, ast.Return):
+                done.extend(states)
+                states = []
+            else:
+                states = [(s or stores(st), i or invalidates(st), g) for s, i, g in states]
+        return states
+
+    done = []
+    done.extend(walk(f.node.body, [(False, False, None)]))
+    # a guard computed from the object's state BEFORE the store ("does the old configuration make this attribute matter?")
+    # is a relevance test this rule cannot judge; a guard on the NEW value alone can never justify skipping the
+    # invalidation: the assembled matrices still hold the old value
+    params = set(f.params())
+    derived = set()
+    for n in ast.walk(f.node):
+        if isinstance(n, ast.Assign) and any(isinstance(x, ast.Attribute) and isinstance(x.value, ast.Name) and x.value.id == "self" for x in ast.walk(n.value)):
+            derived |= {t.id for t in n.targets if isinstance(t, ast.Name)}
+    for s, i, g in done:
+        if s and not i:
+            if g is None:
+                return f.node
+            names = {x.id for x in ast.walk(g.test) if isinstance(x, ast.Name)}
+            reads_self = any(isinstance(x, ast.Attribute) and isinstance(x.value, ast.Name) and x.value.id == "self" for x in ast.walk(g.test))
+            if not reads_self and not (names & derived) and names <= params | {"np"}:
+                return g
+    return None
+
+
 def simu_memo_state_rule(ctx, rid):
     """a memoised simulation method may depend on its arguments only (its cache key)"""
     repo = ctx.repo
@@ -117,6 +190,7 @@ def motion_notify_rule(ctx, cg=None):
 def run(ctx):
     ctx.attempt(history_state_reset_rule, ctx)
     ctx.attempt(per_problem_memo_rule, ctx)
+    ctx.attempt(history_walk_rule, ctx)
     from ..shared import notify_last_rule as _notify_last_rule
 
     ctx.attempt(_notify_last_rule, ctx, "R14.20")
@@ -259,7 +333,13 @@ def run(ctx):
                     r3b.ok()
                     continue
                 if calls_any(cg, f, ("Need_Update", "_Notify")):
-                    r3b.ok(f"{ci.name}: {c.name}.{f.name} stores self.{a} and raises Need_Update")
+                    # ... on every completing path that performs the store (a store outside the guard of the invalidation leaves
+                    # the assembled matrices of the old value in use whenever the guard is false)
+                    leak = store_without_invalidation(cg, f, a)
+                    if leak is None:
+                        r3b.ok(f"{ci.name}: {c.name}.{f.name} stores self.{a} and raises Need_Update")
+                    else:
+                        r3b.fail(f.qualname, f"conditional-need-update:{a}", f.file, leak.lineno, f"{c.name}.{f.name}", f"stores self.{a.split('__')[-1]} on a path that skips Need_Update (the invalidation sits under `{norm_text(leak)[:60]}`): when that test is false the assembled K, C, M, F of the old value are reused")
                 else:
                     r3b.fail(f.qualname, f"no-need-update:{a}", f.file, n.lineno, f"{c.name}.{f.name}", f"stores self.{a}, which {ci.name}.Construct_local_matrix_system reads, without raising Need_Update: the assembled K, C, M, F of the old value are reused")
     # ---- R14.3c simulation-level caches keyed by an object whose state they read
@@ -628,3 +708,36 @@ def per_problem_memo_rule(ctx, rid="R14.21"):
                     r.fail(g.qualname, f"{x}->{y}:memo", g.file, g.lineno, f"{ci.name}.Get_K_C_M_F", f"a repeated request for {y} assembles again ({third}): the memo flag is never raised")
                 else:
                     r.ok(f"{ci.name}: {x} then {y}: {y} assembled once")
+
+
+def history_walk_rule(ctx, rid="R14.22"):
+    """'restoring an earlier iteration': walking a history that spans two meshes (iterations recorded on mesh 0, 1, 0, 1)
+    in any order leaves, after every Set_Iter, the mesh of that iteration current and the recorded index equal to it.
+    _Simu.Set_Iter is interpreted with a recorder in place of the mesh switch."""
+    from ..xeval import Interp, XObj
+
+    repo = ctx.repo
+    simu = repo.cls(SIMU)
+    f = simu.methods["Set_Iter"]
+    r = ctx.rule(rid, "Set_Iter across meshes: after each restore the current mesh and the recorded mesh index are those of the restored iteration, for every order of visits", min_instances=4)
+    hist = [0, 1, 0, 1]
+    for walk in ([0, 1], [1, 0, 1], [0, 2, 3, 1], [3, 2, 2, 0, 1]):
+        r.instance(fn=f.qualname)
+        cur = {"mesh": 1}
+        obj = XObj(simu, {simu.mangle("__indexMesh"): 1, "Get_results": lambda it=-1: {"indexMesh": hist[int(it)]}})
+        obj.attrs[simu.mangle("__Update_mesh")] = lambda idx, cur=cur: cur.__setitem__("mesh", int(idx))
+        I = Interp(repo)
+        bad = None
+        for it in walk:
+            I.call_function(f, [it], self_obj=obj)
+            want = hist[it]
+            if cur["mesh"] != want:
+                bad = f"after Set_Iter({it}) (recorded on mesh {want}) the current mesh is mesh {cur['mesh']}"
+                break
+            if obj.attrs.get(simu.mangle("__indexMesh")) != want:
+                bad = f"after Set_Iter({it}) the mesh index held by the simulation is {obj.attrs.get(simu.mangle('__indexMesh'))}, the restored iteration lives on mesh {want}: the next restore or Save_Iter works with a stale index"
+                break
+        if bad:
+            r.fail(f.qualname, f"walk:{walk}", f.file, f.lineno, "_Simu.Set_Iter", f"history on meshes {hist}, visits {walk}: {bad}")
+        else:
+            r.ok(f"visits {walk}: mesh and index follow the restored iteration")
